@@ -167,7 +167,7 @@ pub fn run(ctx: &Ctx) -> (Stats, Report) {
     let s = pt_run(
         "C12/addsub",
         seed,
-        (if ctx.thorough { 8_000_000 } else { 1_000_000 }) / THREADS as u32,
+        (if ctx.thorough { 64_000_000 } else { 4_000_000 }) / THREADS as u32,
         THREADS,
         || (strat::raw(Kind::Time), strat::raw(Kind::DT), proptest::bool::ANY),
         |(t, iv, sub): &(i128, i128, bool), st: &mut Stats| {
@@ -203,7 +203,7 @@ pub fn run(ctx: &Ctx) -> (Stats, Report) {
         }
     });
     st.merge(s);
-    let dp = pools::dt_pool(seed, if ctx.thorough { 100_000 } else { 20_000 });
+    let dp = pools::dt_pool(seed, if ctx.thorough { 1_000_000 } else { 100_000 });
     let s = par_sweep(dp.len() as u64, 4096, |range, st| {
         for k in range {
             let iv = dp[k as usize];
